@@ -14,6 +14,14 @@ def nest(rng, depth):
     target = rng.choice([n for n in names if n.startswith("a")] + ["p1"])
     reads = [n for n in names if rng.chance(2, 3)] or [names[0]]
     upd = rng.choice(["%s += 1" % target, "%s = %s + 2" % (target, target), "%s++" % target])
+    others = [n for n in names if n != target]
+    if others and rng.chance(1, 4):
+        # two captured bindings written by one multi-assignment (each store goes through its own cell)
+        o = rng.choice(others)
+        upd = rng.choice(["%s, %s = [%s + 1, %s + 3]" % (target, o, target, o), "%s, %s = [%s + 3, %s + 1]" % (o, target, o, target),
+                          "%s, %s = [%s, %s]; %s += 1" % (target, o, o, target, target)])
+        if o not in reads:
+            reads.append(o)
     shadow = rng.below(4)
     if shadow == 0:
         # the closure first uses the captured binding, then declares its own variable of the same name and
@@ -46,12 +54,72 @@ def nest(rng, depth):
     return top, args
 
 
+def block_program(rng):
+    """Closures over variables declared in BLOCKS of a function (bodies of if / for, nested blocks) that outlive their
+    block, next to variables declared later in sibling blocks and in the enclosing scope: every declaration is a binding
+    of its own, whatever slot it was given; two activations of the function share nothing."""
+    nv = [0]
+    count = [0]
+    body = ["fs := []"]
+
+    def fresh():
+        nv[0] += 1
+        return "b%d" % nv[0]
+
+    def capture(v, times=1):
+        count[0] += times
+        return rng.choice(["fs.append(func() { return %s })" % v,
+                           "fs.append(func() { %s += 1; return %s })" % (v, v),
+                           "fs.append(func() { %s = %s * 2 + 1; return %s })" % (v, v, v)])
+
+    for _ in range(2 + rng.below(5)):
+        c = rng.below(7)
+        v = fresh()
+        k = rng.below(50)
+        if c == 0:
+            body.append("if p >= 0 { %s := p + %d; %s }" % (v, k, capture(v)))
+        elif c == 1:
+            # the loop runs ONCE: a variable declared in a loop body is one binding per activation in the implementation
+            # (closures of different iterations share it) while Sem allocates per execution of the declaration - an
+            # observation recorded in DESIGN.md, not something this generator may turn into an alarm
+            n = 1
+            body.append("for i := 0; i < 1; i++ { %s := i * 10 + %d; %s }" % (v, k, capture(v, n)))
+        elif c == 2:
+            w = fresh()
+            body.append("if p >= 0 { %s := %d; if %s >= 0 { %s := %s + p; %s }; %s }" % (v, k, v, w, v, capture(w), capture(v)))
+        elif c == 3:
+            body.append("%s := %d; %s = %s + p" % (v, k, v, v) + ("; " + capture(v) if rng.chance(1, 2) else ""))
+        elif c == 4:
+            body.append("for j := 0; j < 2; j++ { %s := j + %d; %s = %s + 1 }" % (v, k, v, v))     # a block without closures
+        elif c == 5:
+            w = fresh()
+            body.append("if p >= 0 { %s := %d; %s } else { %s := %d; %s }" % (v, k, capture(v), w, k + 1, capture(w)))
+            count[0] -= 1                                                                          # only one branch runs
+        else:
+            w = fresh()
+            body.append("%s, %s := [p, %d]; %s" % (v, w, k, capture(w)))
+    if count[0] == 0:
+        v = fresh()
+        body.append("if p >= 0 { %s := p; %s }" % (v, capture(v)))
+    body.append("return fs")
+    lines = ["func build(p) { " + "; ".join(body) + " }", "fs := build(%d)" % (1 + rng.below(5)), "gs := build(%d)" % (7 + rng.below(5)), "r := []"]
+    calls = ["fs[%d]()" % i for i in range(count[0])] * 2 + ["gs[%d]()" % i for i in range(count[0])]
+    for i in range(len(calls) - 1, 0, -1):
+        j = rng.below(i + 1)
+        calls[i], calls[j] = calls[j], calls[i]
+    lines += ["r.append(%s)" % c for c in calls[:14]]
+    lines.append("r")
+    return "\n".join(lines)
+
+
 def call_chain(name, args):
     return name + "".join("(%d)" % a for a in args)
 
 
 def model_program(rng):
     """A closure program inside the fragment that Sem and the VM model support."""
+    if rng.chance(1, 4):
+        return block_program(rng), 1, 6
     depth = 1 + rng.below(5)
     top, args = nest(rng, depth)
     lines = ["mk := " + top, "pair := " + call_chain("mk", args), "inc := pair[0]", "get := pair[1]"]
